@@ -59,7 +59,7 @@ fn run_prop<P: Prop>(p: &P, tier: Tier) -> ExitCode {
     let res = run_batch(p, tier, seed, nruns);
     let agg = &res.agg;
     println!(
-        "  runs={} executions={} distinct_executions={} distinct_nontrivial={} wall={:.1}s batch_digest={:016x}",
+        "  runs={} executions={} distinct_runs={} distinct_nontrivial={} wall={:.1}s batch_digest={:016x}",
         agg.runs,
         agg.execs,
         agg.digests.len(),
